@@ -222,14 +222,11 @@ func (a *SparseIntMatrix) Set(b ConstMatrix) {
   }
 }
 func (matrix *SparseIntMatrix) SetIdentity() {
+  n, m := matrix.Dims()
   c := NewScalar(matrix.ElementType(), 1.0)
-  for it := matrix.Iterator(); it.Ok(); it.Next() {
-    i, j := it.Index()
-    if i == j {
-      it.Get().Set(c)
-    } else {
-      it.Get().Reset()
-    }
+  matrix.Reset()
+  for i := 0; i < n && i < m; i++ {
+    matrix.At(i, i).Set(c)
   }
 }
 func (matrix *SparseIntMatrix) Reset() {
